@@ -412,7 +412,9 @@ func (s *TypedMapType) IsValidExpression(exp Exp, pipeline *Pipeline, ast *Ast) 
 		}
 		var errs ErrorList
 		isDir := (s.IsFile() == KindIsDirectory)
-		for key, subexp := range exp.Value {
+		// Report problems in a reproducible order.
+		for _, key := range exp.sortedKeys() {
+			subexp := exp.Value[key]
 			if err := s.Elem.IsValidExpression(subexp, pipeline, ast); err != nil {
 				errs = append(errs, &IncompatibleTypeError{
 					Message: "map key " + key,
